@@ -22,6 +22,8 @@ from .core import MachineryError
 from .tlc import SPEC, _unescape, java_cmd
 
 PARALLEL = int(os.environ.get("VERIF_TRACE_JVMS", "8"))
+_seen_td: set = set()
+LAST_COUNTS: dict = {}      # counts of other tagged output lines (e.g. "TD") of the last validate() call
 
 
 def _run_batch(module: str, scratch: Path, k: int, chunk: list[dict], heap: str, timeout: int) -> list[dict]:
@@ -38,6 +40,9 @@ def _run_batch(module: str, scratch: Path, k: int, chunk: list[dict], heap: str,
     done = False
     verdicts = []
     for line in p.stdout.splitlines():
+        if line.startswith('<<"TD"'):
+            _seen_td.add(line)
+            LAST_COUNTS["TD"] = len(_seen_td)
         if line.startswith('<<"TVDONE"'):
             done = True
         elif line.startswith('<<"TV", "') or line.startswith('<<"TK", "'):
@@ -62,6 +67,8 @@ def _run_batch(module: str, scratch: Path, k: int, chunk: list[dict], heap: str,
 
 def validate(module: str, events: list[dict], batch: int = 5000, heap: str = "1g", timeout: int = 3600) -> list[dict]:
     """Return verdict records [{'tag': 'TV'|'TK', 'event': <event>, ...payload}]."""
+    LAST_COUNTS.clear()
+    _seen_td.clear()
     if not events:
         return []
     scratch = Path(tempfile.mkdtemp(prefix="verif-trace-"))
